@@ -3,7 +3,8 @@
 The real pipeline  getModes -> layout change -> QuasiNeutralitySolver.solveEquation -> layout change -> findPotential
 runs in exact arithmetic on real Grid / LayoutHandler objects (modes distributed over a simulated process grid) with a
 fully symbolic real density rho[r,theta,z].  scipy.fftpack.fft/ifft are replaced by their *definition* (the discrete
-Fourier transform, contract) for ntheta = 4, whose twiddle factors {1,-i,-1,i} are exact; equilibrium profiles n0, Te,
+Fourier transform, contract) for ntheta = 4, whose twiddle factors {1,-i,-1,i} are exact, and for ntheta = 3 (2, 6), whose
+twiddle factors lie in Q(i, sqrt 3) (sqrt 3 = z3 real constant with sqrt3^2 = 3, sqrt3 > 0); equilibrium profiles n0, Te,
 n0'/n0 are rational functions so that the per-mode systems are concrete and solved exactly (spsolve contract).
 z3 decides, for all densities:
    * the potential equals  IDFT_k [ per-mode dense Galerkin solution of the radial equation with DFT_k(rho) ]  computed by an
@@ -11,8 +12,8 @@ z3 decides, for all densities:
      stiffness selected by chi: chi=1 drops the phi/Te term, chi=0 keeps it; kinetic electrons: no phi/Te term at all),
    * the potential is real (imaginary part identically zero) for a real density,
    * it is linear in rho (by construction of the identity) and zero for rho = 0.
-NOT decided: "FFT round trip is the identity" (true by the contract used here), odd / other theta counts (irrational
-twiddle factors), the fixed point of the complete time step.
+NOT decided: "FFT round trip is the identity" (true by the contract used here), theta counts with twiddle factors outside
+Q(i, sqrt 3), the fixed point of the complete time step.
 """
 import itertools
 import json
@@ -32,8 +33,25 @@ from checks.c07 import apply_canary, undo_canary
 from checks.c14 import SparseStub
 
 PID = 'C15'
-NQ = 4
-W = [(1, 0), (0, -1), (-1, 0), (0, 1)]          # omega^k for omega = exp(-2 pi i / 4) = -i, as (re, im)
+S3 = z3.Real('sqrt3')            # the algebraic number sqrt(3): constrained by S3*S3 == 3, S3 > 0 on every path that uses it
+
+
+def twiddles(n):
+    """omega^k, k = 0..n-1, for omega = exp(-2 pi i / n) as exact (re, im) pairs; n in {1,2,4} Gaussian rationals,
+    n in {3,6} elements of Q(sqrt 3)"""
+    h = K(Fr(1, 2))
+    s = SReal(S3) * K(Fr(1, 2))
+    table = {1: [(1, 0)], 2: [(1, 0), (-1, 0)], 4: [(1, 0), (0, -1), (-1, 0), (0, 1)],
+             3: [(1, 0), (-h, -s), (-h, s)],
+             6: [(1, 0), (h, -s), (-h, -s), (-1, 0), (-h, s), (h, s)]}
+    if n not in table:
+        raise AssertionError('the exact DFT stand-in is defined for ntheta in {1,2,3,4,6} only')
+    return table[n]
+
+
+def mode_numbers(n):
+    """FFT order: 0, 1, ..., -2, -1 (for even n the Nyquist mode is -n/2)"""
+    return [I if I <= (n - 1) // 2 else I - n for I in range(n)]
 
 
 def cparts(x):
@@ -45,14 +63,14 @@ def cparts(x):
 
 
 def dft(vec, inverse=False):
-    """definition of scipy.fftpack.fft / ifft for length 4 (exact Gaussian-rational twiddles)"""
+    """definition of scipy.fftpack.fft / ifft (exact twiddles)"""
     n = len(vec)
-    assert n == NQ, 'the exact DFT stand-in is defined for ntheta = 4 only'
+    W = twiddles(n)
     out = np.empty(n, dtype=object)
     for k in range(n):
         re, im = 0, 0
         for j in range(n):
-            wr, wi = W[(j * k) % 4]
+            wr, wi = W[(j * k) % n]
             if inverse:
                 wi = -wi
             a, b = cparts(vec[j])
@@ -96,7 +114,8 @@ def spsolve_exact(A, b):
 
 
 def work(item):
-    rdeg, ncells, rpath, nprocs, adiabatic, chi, canary = item
+    rdeg, ncells, rpath, nprocs, adiabatic, chi, NQ, canary = item
+    W = twiddles(NQ)
     res = H.worker_result()
     m = dist.mods()
     ps = H.repo_import('pygyro.poisson.poisson_solver')
@@ -112,6 +131,8 @@ def work(item):
     st = {}
 
     def body(ctx):
+        if NQ in (3, 6):
+            ctx.assume(z3.And(S3 * S3 == 3, S3 > 0))
         rb = dist.make_basis(rdeg, False, breaks, uniform=(rpath == 'cu'))
         rpts = list(rb.greville)
         nr = len(rpts)
@@ -151,15 +172,15 @@ def work(item):
     for ctx, (kind, val) in symx.explore(body, timeout_ms=60000, index_cap=32, maxpaths=50):
         if kind == 'abort':
             if val.inconclusive:
-                res['inconclusive'].append('abort %s %r' % (val.why, item[:6]))
+                res['inconclusive'].append('abort %s %r' % (val.why, item[:7]))
             continue
         res['obligations'] += 1
         if kind == 'exc':
             prob = float_replay(m, ps, item)
             if prob:
-                res['violations'].append(('qn:exception', '%s: %s / %s' % (type(val).__name__, str(val)[:120], prob), dict(kind='qn', item=[str(x) for x in item[:6]])))
+                res['violations'].append(('qn:exception', '%s: %s / %s' % (type(val).__name__, str(val)[:120], prob), dict(kind='qn', item=[str(x) for x in item[:7]])))
             else:
-                res['inconclusive'].append('exception on the model only: %s %s %r' % (type(val).__name__, str(val)[:200], item[:6]))
+                res['inconclusive'].append('exception on the model only: %s %s %r' % (type(val).__name__, str(val)[:200], item[:7]))
             continue
         RHO, rpts, nr = st['RHO'], [symx.fval(p) for p in st['rpts']], st['nr']
         # ---- independent per-mode solution
@@ -174,7 +195,7 @@ def work(item):
             for p, w in zip(pts, wts):
                 x = mid + symx.rationalise(float(p)) * half
                 quad.append((x, symx.rationalise(float(w)) * half, SO.cell_basis(T, rdeg, rdeg + c, x, 0), SO.cell_basis(T, rdeg, rdeg + c, x, 1)))
-        mvals = [0, 1, -2, -1]
+        mvals = mode_numbers(NQ)
         sols = {}
         colloc_inv = SO.invert(SO.collocation(T, rdeg, False, ncells, rpts))
         for I, mm in enumerate(mvals):
@@ -210,7 +231,7 @@ def work(item):
                     for jr in range(nr):
                         re, im = K(0), K(0)
                         for jq in range(NQ):
-                            wr, wi = W[(jq * I) % 4]
+                            wr, wi = W[(jq * I) % NQ]
                             re = re + RHO[jr, jq, iz] * wr
                             im = im + RHO[jr, jq, iz] * wi
                         hat.append((re, im))
@@ -229,37 +250,53 @@ def work(item):
                         for c_, b_ in zip(full, Bx):
                             if not (isinstance(b_, int) and b_ == 0):
                                 v = v + c_ * b_
-                        # inverse DFT: (1/4) sum_I hat_phi_I * omega^{-I*iq}
-                        wr, wi = W[(I * iq) % 4]
+                        # inverse DFT: (1/n) sum_I hat_phi_I * omega^{-I*iq}
+                        wr, wi = W[(I * iq) % NQ]
                         wi = -wi
                         if part == 0:
-                            exp_re = exp_re + v * wr * K(Fr(1, 4))
-                            exp_im = exp_im + v * wi * K(Fr(1, 4))
+                            exp_re = exp_re + v * wr * K(Fr(1, NQ))
+                            exp_im = exp_im + v * wi * K(Fr(1, NQ))
                         else:
-                            exp_re = exp_re - v * wi * K(Fr(1, 4))
-                            exp_im = exp_im + v * wr * K(Fr(1, 4))
+                            exp_re = exp_re - v * wi * K(Fr(1, NQ))
+                            exp_im = exp_im + v * wr * K(Fr(1, NQ))
                 got_re, got_im = cparts(phi[li])
                 bad.append(toreal(zt(K(got_re))) != toreal(zt(exp_re)))
                 where.append(('potential differs from the per-mode reference', rk, (ir, iq, iz)))
                 bad.append(toreal(zt(K(got_im))) != 0)
                 where.append(('potential has an imaginary part for a real density', rk, (ir, iq, iz)))
-        r_ = ctx.check(z3.Or(bad))
+        if NQ in (3, 6):
+            # identities over Q(sqrt 3): every disequality is affine in the density values; it is split into the coefficient
+            # of each density value (a univariate polynomial in sqrt3), decided under sqrt3^2 = 3
+            rvars = [zt(x) for x in np.ravel(RHO)]
+            names = set(v.decl().name() for v in rvars)
+            split, swhere = [], []
+            for b, w in zip(bad, where):
+                d = b.arg(0) - b.arg(1) if (z3.is_distinct(b) and b.num_args() == 2) else None
+                if d is None or symx.lin_degree(d, names) is None:
+                    split.append(b)
+                    swhere.append(w)
+                    continue
+                for nm, c in symx.coefficient_terms(d, rvars).items():
+                    split.append(c != 0)
+                    swhere.append(w + (nm,))
+            bad, where = split, swhere
+        r_ = ctx.check(z3.Or(bad)) if bad else 'unsat'
         if r_ == 'unsat':
             res['discharged'] += 1
-            res['nontrivial'].append('qn|%r' % (item[:6],))
+            res['nontrivial'].append('qn|%r' % (item[:7],))
             if len(res['samples']) < 1:
-                res['samples'].append(dict(config=[str(x) for x in item[:6]], facts=len(bad)))
+                res['samples'].append(dict(config=[str(x) for x in item[:7]], facts=len(bad)))
         elif r_ == 'sat':
             mdl = ctx.model()
             hits = [w for w, b in zip(where, bad) if z3.is_true(mdl.eval(b, model_completion=True))][:3]
             prob = float_replay(m, ps, item)
-            rep = dict(kind='qn', item=[str(x) for x in item[:6]], facts=[str(h) for h in hits], concrete=prob, canary=bool(canary))
+            rep = dict(kind='qn', item=[str(x) for x in item[:7]], facts=[str(h) for h in hits], concrete=prob, canary=bool(canary))
             if prob:
                 res['violations'].append(('qn:%s' % ('real' if 'imaginary' in hits[0][0] else 'modes'), '%s; %s' % (hits[0], prob), rep))
             else:
                 res['inconclusive'].append('model does not reproduce in floats: %r' % rep)
         else:
-            res['inconclusive'].append('unknown QN query %r' % (item[:6],))
+            res['inconclusive'].append('unknown QN query %r' % (item[:7],))
     numenv.disable()
     if canary:
         undo_canary(None)
@@ -272,7 +309,7 @@ def work(item):
 
 def float_replay(m, ps, item):
     """real float pipeline (real scipy fft / spsolve) on a random real density vs numpy reference per mode"""
-    rdeg, ncells, rpath, nprocs, adiabatic, chi, _ = item
+    rdeg, ncells, rpath, nprocs, adiabatic, chi, NQ, _ = item
     numenv.disable()
     try:
         fb = np.linspace(1, 3, ncells + 1)
@@ -360,7 +397,7 @@ def float_replay(m, ps, item):
 
 CANARIES = [
     ('m = 0 mode always uses the full stiffness (chi ignored)', 'ps', [("            elif (chi == 1):\n                self._stiffness0 = self._dPhidPsi + self._dPhiPsi",
-                                                                    "            elif (chi == 1):\n                self._stiffness0 = self._stiffnessMatrix")], (2, 2, 'nu', (1, 1), True, 1)),
+                                                                    "            elif (chi == 1):\n                self._stiffness0 = self._stiffnessMatrix")], (2, 2, 'nu', (1, 1), True, 1, 4)),
     ('squared mode numbers taken from the local index', 'ps', [("                stiffnessMatrix = (self._stiffnessMatrix - self._mVals[I]*self._k2PhiPsi)[\n                    self._stiffness_range[I], self._stiffness_range[I]]\n\n            # Set Dirichlet boundary conditions\n            # In the case of Neumann boundary conditions these values\n            # will be overwritten\n            self._coeffs[0] = 0\n            self._coeffs[-1] = 0\n\n            self._solveMode(phi, rho, stiffnessMatrix, i, I)\n\n    def solveEquationForFunction",
                                                                 "                stiffnessMatrix = (self._stiffnessMatrix - self._mVals[I]*self._k2PhiPsi)[\n                    self._stiffness_range[I], self._stiffness_range[I]]\n\n            # Set Dirichlet boundary conditions\n            # In the case of Neumann boundary conditions these values\n            # will be overwritten\n            self._coeffs[0] = 0\n            self._coeffs[-1] = 0\n\n            self._solveMode(phi, rho, stiffnessMatrix, i, I)\n\n    def solveEquationForFunction")], None),
 ]
@@ -378,14 +415,20 @@ def main():
     quick = run.tier == 'quick'
     items = []
     for chi in (0, 1):
-        items.append((2, 2, 'nu', (1, 1), True, chi, None))
-        items.append((2, 2, 'nu', (2, 1), True, chi, None))
-    items.append((2, 2, 'nu', (1, 2), False, 0, None))
+        items.append((2, 2, 'nu', (1, 1), True, chi, 4, None))
+        items.append((2, 2, 'nu', (2, 1), True, chi, 4, None))
+        items.append((2, 2, 'nu', (1, 1), True, chi, 3, None))       # odd theta count: twiddles in Q(sqrt 3), no Nyquist mode
+    items.append((2, 2, 'nu', (1, 2), False, 0, 4, None))
+    items.append((2, 2, 'nu', (2, 1), False, 0, 3, None))
     if not quick:
         for chi in (0, 1):
-            items.append((3, 2, 'cu', (2, 2), True, chi, None))
-            items.append((1, 3, 'nu', (4, 1), True, chi, None))
-        items.append((3, 3, 'cu', (2, 1), False, 0, None))
+            items.append((3, 2, 'cu', (2, 2), True, chi, 4, None))
+            items.append((1, 3, 'nu', (4, 1), True, chi, 4, None))
+            items.append((2, 2, 'nu', (1, 2), True, chi, 3, None))
+            items.append((1, 2, 'nu', (2, 1), True, chi, 6, None))
+            items.append((1, 2, 'nu', (1, 1), True, chi, 2, None))
+        items.append((3, 3, 'cu', (2, 1), False, 0, 4, None))
+        items.append((2, 2, 'nu', (3, 1), False, 0, 3, None))
     cn = CANARIES[0]
     items.append(cn[3] + (cn[:3],))
     caught = {}
@@ -401,11 +444,11 @@ def main():
         if not hit:
             run.canary_miss(cn[0], caught)
     numenv.enable(extra_modules=[(ps, None)])
-    run.stubs = sorted(set(numenv.STUBS)) + ['scipy.fftpack.fft / ifft: their definition (exact DFT) for ntheta = 4', 'spsolve: exact solve of the concrete rational system (contract A x = b)',
+    run.stubs = sorted(set(numenv.STUBS)) + ['scipy.fftpack.fft / ifft: their definition (exact DFT) for ntheta in {2,3,4,6}: twiddle factors in Q(i) or Q(i, sqrt 3), sqrt 3 a real constant with sqrt3^2 = 3', 'spsolve: exact solve of the concrete rational system (contract A x = b)',
                                              'scipy.sparse: dense stand-in', 'n0, Te, n0\'/n0: rational profile functions passed through the constructor\'s own keyword arguments']
     numenv.disable()
-    run.bounds = dict(ntheta=4, radial='degrees 1-3, 2-3 cells, uniform breaks', process_grids='(1,1),(2,1),(1,2) (thorough (2,2),(4,1))', electrons='adiabatic chi in {0,1}; kinetic')
-    run.outside = ['FFT round trip is the identity (holds by the DFT contract used here, not decided)', 'theta counts other than 4 (irrational twiddle factors)',
+    run.bounds = dict(ntheta='4 and 3 (thorough also 2 and 6)', radial='degrees 1-3, 2-3 cells, uniform breaks', process_grids='(1,1),(2,1),(1,2) (thorough (2,2),(4,1))', electrons='adiabatic chi in {0,1}; kinetic')
+    run.outside = ['FFT round trip is the identity (holds by the DFT contract used here, not decided)', 'theta counts other than 2, 3, 4, 6 (twiddle factors outside Q(i, sqrt 3))',
                    'the equilibrium as a fixed point of the complete time step', 'rounding']
     run.assumptions = ['scipy.fftpack.fft/ifft implement the DFT definition', 'exact reals for doubles', 'spsolve contract']
     run.finish(
